@@ -37,6 +37,10 @@ func zzWScenario(sc int) (dates []zzWDate, startYear int, complete bool) {
 		return []zzWDate{{2002, 12, 30, 364}, {2002, 12, 31, 365}, {2003, 1, 1, 1}, {2003, 1, 2, 2}}, 2003, true
 	case 3: // three years
 		return []zzWDate{{2003, 12, 31, 365}, {2004, 1, 1, 1}, {2004, 1, 2, 2}}, 2003, true
+	case 4: // six consecutive days across the change from an ordinary year into a leap year
+		return []zzWDate{{2003, 12, 29, 363}, {2003, 12, 30, 364}, {2003, 12, 31, 365}, {2004, 1, 1, 1}, {2004, 1, 2, 2}, {2004, 1, 3, 3}}, 2003, true
+	case 5: // four years, one or two days each side of every change
+		return []zzWDate{{2003, 12, 31, 365}, {2004, 1, 1, 1}, {2004, 12, 31, 366}, {2005, 1, 1, 1}, {2005, 12, 31, 365}, {2006, 1, 1, 1}}, 2003, false
 	case 10: // a day missing inside a year
 		return []zzWDate{{2003, 12, 28, 362}, {2003, 12, 29, 363}, {2003, 12, 31, 365}}, 2003, false
 	case 11: // the first day of the next year missing
@@ -281,7 +285,7 @@ func zzC04ReadYearFile(n, year int) {
 
 // ---- C13: the same weather in the three layouts gives the same year in the run state
 type zzWYearState struct {
-	temp, tmin, tmax, rh, rad, wind, regen, sund, verd [3]float64
+	temp, tmin, tmax, rh, rad, wind, regen, sund, verd [6]float64
 	jtag                                              int
 	alti, windhi                                      float64
 	err                                               bool
@@ -290,7 +294,7 @@ type zzWYearState struct {
 func zzWLoad(g *GlobalVarsMain, s *WeatherDataShared, year, n int) zzWYearState {
 	var st zzWYearState
 	st.err = LoadYear(g, s, year) != nil
-	for k := 0; k < n && k < 3; k++ {
+	for k := 0; k < n && k < 6; k++ {
 		st.temp[k], st.tmin[k], st.tmax[k], st.rh[k], st.rad[k] = g.TEMP[k], g.TMIN[k], g.TMAX[k], g.RH[k], g.RAD[k]
 		st.wind[k], st.regen[k], st.sund[k], st.verd[k] = g.WIND[k], g.REGEN[k], g.SUND[k], g.VERD[k]
 	}
@@ -353,7 +357,7 @@ func zzC13WeatherLayouts(n, pre int) {
 	for f := 1; f < 3; f++ {
 		a, b := res[0], res[f]
 		same := a.jtag == b.jtag
-		for k := 0; k < n && k < 3; k++ {
+		for k := 0; k < n && k < 6; k++ {
 			same = same && a.temp[k] == b.temp[k] && a.tmin[k] == b.tmin[k] && a.tmax[k] == b.tmax[k] && a.rh[k] == b.rh[k] && a.rad[k] == b.rad[k] &&
 				a.wind[k] == b.wind[k] && a.regen[k] == b.regen[k] && a.sund[k] == b.sund[k] && a.verd[k] == b.verd[k]
 		}
